@@ -51,87 +51,54 @@ def render : List Comp → Str
 
 def cleaned (p : Str) : Str := render ((components p).foldl cleanStep [])
 
-#eval ["../../x", "/..", "/a/../..", "a/..", "./a", "a/./b", "//a//b/", "%h/../x", "..", "../..", "/", ".", ""].map
-  (fun s => (s, String.ofList (cleaned s.toList)))
 
 /-- reference: Go filepath.Clean restricted to rooted paths, on the list of parts -/
 def Spec.cleanParts (parts : List Str) : List Str :=
   parts.foldl (fun st x => if x.isEmpty || x == dot then st else if x == dotdot then st.dropLast else st ++ [x]) []
 
-end Pth
 
-namespace Pth
+/-! ### absolute_from / absolute_from_unit (path_buf_ext.rs) -/
+def startsWith (x pre : Str) : Bool := pre.isPrefixOf x
 
-def g' (x : Str) : Option Comp :=
-  if x.isEmpty then none else if x == dot then none else if x == dotdot then some Comp.parent else some (Comp.normal x)
+/-- PathBuf::join / push on Unix for the cases the generator uses -/
+def joinPath (root p : Str) : Str :=
+  if isAbs p then p else if root.isEmpty then p else if root.getLast? == some '/' then root ++ p else root ++ '/' :: p
 
-def specStep (st : List Str) (x : Str) : List Str :=
-  if x.isEmpty || x == dot then st else if x == dotdot then st.dropLast else st ++ [x]
+def firstComponentLen (p : Str) : Nat :=
+  match components p with
+  | [] => 0
+  | c :: _ => (compStr c).length
 
-theorem getLast?_cons_snoc {α} (a b : α) (l : List α) : (a :: (l ++ [b])).getLast? = some b := by
-  rw [← List.cons_append, List.getLast?_append]; simp
+/-- starts_with_systemd_specifier -/
+def startsWithSpecifier (p : Str) : Bool :=
+  if p.length ≤ 1 then false
+  else if firstComponentLen p == 2 then
+    if startsWith p ['%', '%'] then false else startsWith p ['%']
+  else false
 
-theorem dropLast_cons_snoc {α} (a b : α) (l : List α) : (a :: (l ++ [b])).dropLast = a :: l := by
-  rw [← List.cons_append]; exact List.dropLast_concat
+/-- absolute_from: `cwd` is only consulted when `root` is empty -/
+def absoluteFrom (cwd root p : Str) : Str :=
+  if !startsWithSpecifier p && !isAbs p then
+    (if !root.isEmpty then cleaned (joinPath root p) else cleaned (joinPath cwd p))
+  else cleaned p
 
-theorem fold_abs (parts : List Str) (st : List Str) :
-    (parts.filterMap g').foldl cleanStep (Comp.root :: st.map Comp.normal)
-      = Comp.root :: (parts.foldl specStep st).map Comp.normal := by
-  induction parts generalizing st with
-  | nil => simp
-  | cons x parts ih =>
-    simp only [List.filterMap_cons, List.foldl_cons]
-    by_cases h1 : x.isEmpty = true
-    · simp only [g', h1, if_true, specStep, Bool.true_or]; exact ih st
-    · by_cases h2 : (x == dot) = true
-      · simp only [g', h1, Bool.false_eq_true, if_false, h2, if_true, specStep, Bool.or_true]; exact ih st
-      · by_cases h3 : (x == dotdot) = true
-        · simp only [g', h1, h2, h3, Bool.false_eq_true, if_false, if_true, specStep, Bool.or_self,
-            List.foldl_cons]
-          have : cleanStep (Comp.root :: st.map Comp.normal) Comp.parent
-              = Comp.root :: (st.dropLast).map Comp.normal := by
-            simp only [cleanStep, List.length_cons, gt_iff_lt, Nat.zero_lt_succ, if_true, popStack]
-            cases hst : st.reverse with
-            | nil =>
-              have : st = [] := by simpa using hst
-              subst this; simp
-            | cons y ys =>
-              have hs : st = ys.reverse ++ [y] := by
-                have := congrArg List.reverse hst; simpa using this
-              subst hs
-              have e1 : (Comp.root :: List.map Comp.normal (ys.reverse ++ [y])).getLast? = some (Comp.normal y) := by
-                rw [List.map_append]; exact getLast?_cons_snoc _ _ _
-              have e2 : (Comp.root :: List.map Comp.normal (ys.reverse ++ [y])).dropLast
-                  = Comp.root :: List.map Comp.normal ys.reverse := by
-                rw [List.map_append]; exact dropLast_cons_snoc _ _ _
-              rw [e1]; simp only [e2]; simp
-          rw [this]; exact ih _
-        · simp only [g', h1, h2, h3, Bool.false_eq_true, if_false, specStep, Bool.or_self, List.foldl_cons]
-          have : cleanStep (Comp.root :: st.map Comp.normal) (Comp.normal x)
-              = Comp.root :: (st ++ [x]).map Comp.normal := by simp [cleanStep]
-          rw [this]; exact ih _
+/-- Path::parent for paths without trailing separators: none for "/" and "" -/
+def parent (path : Str) : Option Str :=
+  match (components path).reverse with
+  | [] => none
+  | [Comp.root] => none
+  | _ :: rest => some (render rest.reverse)
+
+/-- absolute_from_unit -/
+def absoluteFromUnit (cwd unitPath p : Str) : Str :=
+  absoluteFrom cwd ((parent unitPath).getD cwd) p
+
+/-- reference normaliser (Go filepath.Clean semantics) for rooted paths: split at '/', drop empty and "."
+    parts, ".." removes the previous part and never climbs above the root, re-join -/
+def Spec.clean (p : Str) : Str :=
+  match Spec.cleanParts (splitSlash p) with
+  | [] => ['/']
+  | xs => xs.flatMap ('/' :: ·)
 
 end Pth
 
-namespace Pth
-
-def isNormal (x : Str) : Bool := !x.isEmpty && !(x == dot) && !(x == dotdot)
-
-/-- C12 depth arithmetic: descending through `xs` and then climbing `xs.length` times returns to the start -/
-theorem down_up (xs : List Str) (hx : ∀ x ∈ xs, isNormal x = true) (st : List Str) :
-    (xs ++ List.replicate xs.length dotdot).foldl specStep st = st := by
-  induction xs generalizing st with
-  | nil => simp
-  | cons x xs ih =>
-    have hn := hx x (by simp)
-    simp only [isNormal, Bool.and_eq_true, Bool.not_eq_true', beq_eq_false_iff_ne, ne_eq] at hn
-    obtain ⟨⟨h1, h2⟩, h3⟩ := hn
-    have hstep : specStep st x = st ++ [x] := by
-      have e2 : (x == dot) = false := by simpa using h2
-      have e3 : (x == dotdot) = false := by simpa using h3
-      simp [specStep, h1, e2, e3]
-    simp only [List.length_cons, List.replicate_succ', List.cons_append, List.foldl_cons, hstep]
-    rw [← List.append_assoc, List.foldl_append, ih (fun y hy => hx y (by simp [hy]))]
-    simp [specStep, dotdot, dot]
-
-end Pth
